@@ -5,6 +5,7 @@ R18.1  chunk-obliviousness: line-oriented decoders touch `response` only through
 R18.2  accumulator typestate of iter_sse: pending lines are parsed+yielded before every exit, the
        accumulator is reset after a dispatch, parsed events are yielded
 R18.3  _parse_sse_event: comment test dominates field dispatch, data kept in order and joined with "\n"
+R18.6  iter_sse tests and accumulates each line of aiter_lines() unmodified (no strip / rewrite of the loop variable)
 R18.5  a value whose truthiness guards a yield is an instance of a class without __bool__/__len__ (an empty event is still delivered)
 R18.4  iter_ndjson: one yield per non-empty line, nothing carried between lines
 """
@@ -50,6 +51,7 @@ def run(repo: Repo, rep: Report, tier: str) -> None:
         rep.require(need in decoders, f"R18.1: decoder {need} vanished from streaming_helpers")
     decoder_names = set(decoders)
     rule_truth_tested_instances(repo, rep, "R18.5")
+    rule_lines_untouched(repo, rep, "R18.6")
 
     # ---------------------------------------------------------------- R18.1
     for q, fn in sorted(decoders.items()):
@@ -369,6 +371,45 @@ def _sse_typestate(fn: Function, rep: Report) -> None:
                           f"a parsed event can be dropped without being yielded: {cfg.describe_path(p or [])}", fn.loc(n.ast))
 
 
+def rule_lines_untouched(repo: Repo, rep, rule: str = "R18.6") -> None:
+    """iter_sse hands every line of `aiter_lines()` on as it arrived: the blank-line test and the accumulator see the loop variable
+    itself.  A transformation of the line inside the loop (strip / rstrip / replace / slicing, an assignment to the loop variable)
+    changes the data of every event whose lines it touches - trailing whitespace of `data:` lines is content, and a padding-only line
+    is not an event boundary."""
+    fn = repo.module(MOD).functions.get("iter_sse")
+    if fn is None:
+        raise AnalysisError(f"{rule}: anchor vanished: iter_sse")
+    loops = [n for n in own_nodes(fn.node) if isinstance(n, (ast.AsyncFor, ast.For)) and any(
+        isinstance(c.func, ast.Attribute) and c.func.attr == "aiter_lines" for c in ast.walk(n.iter) if isinstance(c, ast.Call))]
+    if len(loops) != 1 or not isinstance(loops[0].target, ast.Name):
+        from sa.flatten import flatten as _fl
+
+        f2 = _fl(fn)
+        loops = [n for n in own_nodes(f2.node) if isinstance(n, (ast.AsyncFor, ast.For)) and any(
+            isinstance(c.func, ast.Attribute) and c.func.attr == "aiter_lines" for c in ast.walk(n.iter) if isinstance(c, ast.Call))]
+        if len(loops) != 1 or not isinstance(loops[0].target, ast.Name):
+            rep.error(f"{rule}: expected one `async for <line> in response.aiter_lines()` in iter_sse, found {len(loops)}")
+            return
+    lp = loops[0]
+    var = lp.target.id
+    sub = f"{fn.module.relpath}:iter_sse line `{var}` between aiter_lines() and the accumulator"
+    rebinds = [st for st in ast.walk(lp) if isinstance(st, (ast.Assign, ast.AugAssign, ast.AnnAssign)) and any(
+        isinstance(t, ast.Name) and t.id == var for t in (st.targets if isinstance(st, ast.Assign) else [st.target]))]
+    appended = [c for c in ast.walk(lp) if isinstance(c, ast.Call) and isinstance(c.func, ast.Attribute) and c.func.attr == "append" and c.args
+                and var in {x.id for x in ast.walk(c.args[0]) if isinstance(x, ast.Name)}]
+    changed = [c for c in appended if not (isinstance(c.args[0], ast.Name) and c.args[0].id == var)]
+    if rebinds:
+        rep.violation(rule, sub, f"{fn.fq}|line-rewritten|{norm(rebinds[0].value)[:30] if getattr(rebinds[0], 'value', None) is not None else ''}",
+                      f"`{norm(rebinds[0])[:60]}` rewrites the line before it is tested / accumulated: the event's data is no longer the data lines that were sent "
+                      "(trailing whitespace dropped, a whitespace-only line ends the event early)", fn.loc(rebinds[0]))
+    elif changed:
+        rep.violation(rule, sub, f"{fn.fq}|line-transformed-on-append", f"`{norm(changed[0])[:60]}` accumulates a transformed line", fn.loc(changed[0]))
+    elif appended:
+        rep.ok(rule, sub, "the loop variable is never reassigned and is appended as it is", fn.loc(lp))
+    else:
+        rep.error(f"{rule}: no `<list>.append({var})` in the line loop of iter_sse (anchor)")
+
+
 def _inside(node: Optional[ast.AST], anc: ast.AST) -> bool:
     p = node
     while p is not None:
@@ -424,6 +465,13 @@ def _parse_event_rules(fn: Function, rep: Report) -> None:
                     rep.ok("R18.3", sub0 + " split at first colon", "`split(':', 1)`: colons inside the value are preserved", fn.loc(c))
                 else:
                     rep.violation("R18.3", sub0 + " split at first colon", f"{fn.fq}|split|{norm(c)}", f"`{norm(c)}` does not split at the first colon only", fn.loc(c))
+            elif isinstance(c.func, ast.Attribute) and c.func.attr == "partition":
+                if len(c.args) == 1 and const_str(c.args[0]) == ":":
+                    rep.ok("R18.3", sub0 + " split at first colon", "`partition(':')`: the field name ends at the first colon, colons inside the value are preserved", fn.loc(c))
+                else:
+                    rep.violation("R18.3", sub0 + " split at first colon", f"{fn.fq}|split|{norm(c)}",
+                                  f"`{norm(c)}` does not split at the first colon: a line whose colon is not followed by that exact separator (`data:x`, an empty `data:`) "
+                                  "is not recognised as a field and its data is lost", fn.loc(c))
     # data accumulation: only append, under field == "data"
     ret = [n for n in own_nodes(fn.node) if isinstance(n, ast.Return)]
     rep.require(len(ret) == 1, f"R18.3: _parse_sse_event has {len(ret)} returns")
